@@ -336,6 +336,43 @@ def overlay_templates(keys):
     return out
 
 
+def rejected_templates(keys):
+    """Hand-written legal NomtApi behaviours in which an attempt is REJECTED in the middle of the commit of an overlay
+    chain: a stale session changeset (blocking / non-blocking), a stale sibling overlay, a rollback that cannot be
+    served, a refused begin.  By NomtApi!RejectedIsNoOp the rest of the chain commits as if nothing had happened
+    (the twin without the attempt is generated by twin_without_rejected)."""
+    N = {k: "NoCh" for k in keys}
+    a, b, c = keys[0], keys[1], keys[2]
+    out = []
+    for attempt in ("Commit", "TryCommit", "OverlayCommit", "OverlayTryCommit", "Rollback", "Begin"):
+        for second in ("OverlayCommit", "OverlayTryCommit"):
+            beh = [dict(a="Begin", s=1, chain=[], res="Ok"), dict(a="Finish", s=1, f=1, w=dict(N, **{c: "v1"})), dict(a="Commit", f=1, res="Ok")]
+            # the competitor, prepared on the same base as the chain
+            beh += [dict(a="Begin", s=1, chain=[], res="Ok"), dict(a="Finish", s=1, f=1, w=dict(N, **{a: "v1"}))]
+            if attempt.startswith("Overlay"):
+                beh += [dict(a="IntoOverlay", f=1, o=1)]
+                o1, o2, stale = 2, 3, 1
+            else:
+                o1, o2, stale = 1, 2, None
+            fid = 1 if attempt.startswith("Overlay") else 2
+            beh += [dict(a="Begin", s=1, chain=[], res="Ok"), dict(a="Finish", s=1, f=fid, w=dict(N, **{b: "v1"})),
+                    dict(a="IntoOverlay", f=fid, o=o1),
+                    dict(a="Begin", s=1, chain=[o1], res="Ok"), dict(a="Finish", s=1, f=fid, w=dict(N, **{b: "v2", c: "Nil"})),
+                    dict(a="IntoOverlay", f=fid, o=o2),
+                    dict(a="OverlayCommit", o=o1, res="Ok")]
+            if attempt in ("Commit", "TryCommit"):
+                beh += [dict(a=attempt, f=1, res="Stale")]
+            elif attempt.startswith("Overlay"):
+                beh += [dict(a=attempt, o=stale, res="Stale")]
+            elif attempt == "Rollback":
+                beh += [dict(a="Rollback", n=3, res="NotEnough")]
+            else:
+                beh += [dict(a="Begin", s=0, chain=[o2, o2], res="NotAncestor")]
+            beh += [dict(a=second, o=o2, res="Ok"), dict(a="Rollback", n=1, res="Ok"), dict(a="Close"), dict(a="Reopen")]
+            out.append(beh)
+    return out
+
+
 def rollback_templates(keys, maxlog):
     """Hand-written legal NomtApi behaviours around rollbacks of overlay chains: a committed (or absent) key is
     deleted / overwritten in overlay o1, written again in o2 on top of it, both are committed, then rolled back one
